@@ -109,8 +109,10 @@ func TestVerifC14Text(t *testing.T) {
 	}
 	syms, textLo, textHi := c14symbols(t)
 	byName := map[string]c14sym{}
+	byAddr := map[uintptr]c14sym{}
 	for _, s := range syms {
 		byName[s.name] = s
+		byAddr[s.addr] = s
 	}
 	// the ELF addresses must be the run-time addresses (non-PIE test binary)
 	self := reflect.ValueOf(c14repl).Pointer()
@@ -273,9 +275,71 @@ func TestVerifC14Text(t *testing.T) {
 				continue
 			}
 			nPatch, plo, phi := textDiff() // after replaceFunc: only the placeholder may have changed
+			// what the guard holds (guard.go:14-16): the saved original bytes must have the jump's length (patch.go:123)
+			obLen, jbLen := len(g.originBytes), len(g.jumpBytes)
+			// Make the EXTENT of the two writes observable: a write of identical bytes is invisible in a diff, so the
+			// bytes [13, scrHi) behind the entry jump (inside the target's own extent) are overwritten with a pattern
+			// that differs from the original in every byte, using raw syscalls (not the code under test).
+			scrHi := 0
+			if sy, ok := byAddr[entry]; ok && tramp == nil {
+				scrHi = sy.dist
+				if scrHi > 40 {
+					scrHi = 40
+				}
+				if scrHi < 14 {
+					scrHi = 0
+				}
+			}
+			poke := func(src func(i int) byte) {
+				if scrHi == 0 {
+					return
+				}
+				p := (entry + 13) &^ 4095
+				ln := (entry+uintptr(scrHi)+4095)&^4095 - p
+				syscall.Syscall(syscall.SYS_MPROTECT, p, ln, syscall.PROT_READ|syscall.PROT_WRITE|syscall.PROT_EXEC)
+				dst := c14raw(entry, scrHi)
+				for i := 13; i < scrHi; i++ {
+					dst[i] = src(i)
+				}
+				syscall.Syscall(syscall.SYS_MPROTECT, p, ln, syscall.PROT_READ|syscall.PROT_EXEC)
+			}
+			origAt := func(i int) byte { return pristine[entry-textLo+uintptr(i)] }
+			poke(func(i int) byte { return origAt(i) ^ 0xa5 })
+			snap := func() []byte {
+				n := scrHi
+				if n < 13 {
+					n = 13
+				}
+				return append([]byte(nil), c14raw(entry, n)...)
+			}
+			extent := func(a, b []byte) string { // positions where a write changed something, as lo..hi
+				lo, hi := -1, -1
+				for i := range a {
+					if a[i] != b[i] {
+						if lo < 0 {
+							lo = i
+						}
+						hi = i + 1
+					}
+				}
+				if lo < 0 {
+					return "none"
+				}
+				return fmt.Sprintf("%d..%d", lo, hi)
+			}
+			scribbleOK := func(cur []byte) bool {
+				for i := 13; i < scrHi; i++ {
+					if cur[i] != origAt(i)^0xa5 {
+						return false
+					}
+				}
+				return true
+			}
+			s0 := snap()
 			c14u.Begin(3*op.Idx + 1)
 			g.Apply()
 			c14u.End(3*op.Idx + 1)
+			s1 := snap()
 			after := append([]byte(nil), c14raw(entry, 13)...)
 			toOK := len(after) == 13 && binary.LittleEndian.Uint64(after[3:11]) == uint64(replIn)
 			nApply, lo, hi := textDiff()
@@ -286,6 +350,9 @@ func TestVerifC14Text(t *testing.T) {
 				cur := c14raw(textLo, int(textHi-textLo))
 				for a := lo; a < hi; a++ {
 					if cur[a-textLo] != pristine[a-textLo] {
+						if scrHi > 0 && a >= entry+13 && a < entry+uintptr(scrHi) {
+							continue // the probe's own scribble (checked separately)
+						}
 						inEntry := a >= entry && a < entry+13
 						inTramp := tramp != nil && a >= trampAddr && a < trampAddr+uintptr(trampSize)
 						if !inEntry && !inTramp {
@@ -297,6 +364,10 @@ func TestVerifC14Text(t *testing.T) {
 			c14u.Begin(3*op.Idx + 2)
 			g.UnpatchWithLock()
 			c14u.End(3*op.Idx + 2)
+			s2 := snap()
+			applyExt, unpatchExt := extent(s0, s1), extent(s1, s2)
+			scr := scribbleOK(s1) && scribbleOK(s2)
+			poke(origAt) // put the original bytes back
 			back := c14raw(entry, 13)
 			restored := bytes.Equal(back, pristine[entry-textLo:entry-textLo+13])
 			nAfter, alo, ahi := textDiff()
@@ -320,8 +391,8 @@ func TestVerifC14Text(t *testing.T) {
 				syscall.Syscall(syscall.SYS_MPROTECT, p, ln, syscall.PROT_READ|syscall.PROT_EXEC)
 			}
 			_ = plo
-			out.Put(op.Idx, "apply=ok entry=%s unpatch=ok restored=%v | to_ok=%v n_patch=%d tramp_written=%d..%d n_apply=%d stray=%d stray_after=%d image_applied=%v image_after=%v pbase=%#x entry=%#x tramp=%#x trampsize=%d",
-				c14maskJump(after), restored, toOK, nPatch, int64(plo)-int64(trampAddr), int64(phi)-int64(trampAddr), nApply, stray, strayAfter, imgApplied, image() == image0, pbase, entry, trampAddr, trampSize)
+			out.Put(op.Idx, "apply=ok entry=%s unpatch=ok restored=%v lens=%d/%d | apply_ext=%s unpatch_ext=%s scribble=%v scr_hi=%d to_ok=%v n_patch=%d tramp_written=%d..%d n_apply=%d stray=%d stray_after=%d image_applied=%v image_after=%v pbase=%#x entry=%#x tramp=%#x trampsize=%d",
+				c14maskJump(after), restored, obLen, jbLen, applyExt, unpatchExt, scr, scrHi, toOK, nPatch, int64(plo)-int64(trampAddr), int64(phi)-int64(trampAddr), nApply, stray, strayAfter, imgApplied, image() == image0, pbase, entry, trampAddr, trampSize)
 		}
 	}
 	if n, _, _ := textDiff(); n != 0 {
